@@ -292,6 +292,11 @@ def rules(ctx):
     r2_roots(ctx)
     r3_provenance(ctx)
     r4_counts(ctx)
+    # the root of every mask: Dataset builds `mask` = (padding mask) * (not-NaN) on the rows it fills, zero-fills the NaNs afterwards and
+    # restores them from the mask when values are read back (same rule as the Dataset part of C14.R3, decided on the same code)
+    from .c14 import r3b_dataset_mask
+    ctx.rule("C06.R7", "Dataset: mask = padding mask * not-NaN on the filled rows; NaN zero-filled after; restored from the mask on read-back", 5)
+    r3b_dataset_mask(ctx, rid="C06.R7")
     ctx.trust("torch.masked_fill / sum semantics; weights of data variables are 0/1 masks")
     ctx.assume("loops over data-dependent ranges (mixture density) are summarised by one symbolic iteration")
 
